@@ -136,3 +136,79 @@ Proof.
   - intros s ps0 e s' ps' o H. unfold res_outs in H. destruct s; injection H; intros; subst; reflexivity.
   - exists (mkP 0 0 0 0 0 0 1 1 0 1%Z), (mkP 1 0 0 0 0 0 0 2 0 2%Z). cbn. repeat split; lra.
 Qed.
+
+(* ================= round 2 ================= *)
+From RV Require Import C13.Line C13.MergeSum C13.Tree.
+From Coq Require Import Permutation.
+
+(* ---- LINE / LINETREE leaf criterion: the code's test (min of the squared end distances and, when
+   0 <= t_closest/dt <= 1, of the squared closest-approach distance, against (r1+r2)^2) holds iff the two straight
+   paths of the last step come within r1+r2 of each other at some fraction s in [0,1] of the step (dt of any sign) *)
+Theorem C13_line_complete_and_sound : forall (dt : R) (g : vec6 R) (r1 : R) (p2 : particle R), dt <> 0 ->
+  (line_test RNum dt g r1 p2 = true <->
+   exists s, 0 <= s <= 1 /\ dist2_at dt g p2 s <= (r1 + pr p2) * (r1 + pr p2)).
+Proof. exact line_test_real. Qed.
+Print Assumptions C13_line_complete_and_sound.
+
+(* LINE hands over exactly the pairs i<j (every unordered pair once per ghost box of the clamped ring) passing the test *)
+Theorem C13_line_enumerates : forall (T : Type) (N : Num T) gbf ngx ngy ngz dt ps e,
+  In e (search_line N gbf ngx ngy ngz dt ps) <->
+  exists a b c i j,
+    e = (Z.of_nat i, Z.of_nat j, gbid a b c) /\
+    In a (ring (gcol ngx)) /\ In b (ring (gcol ngy)) /\ In c (ring (gcol ngz)) /\
+    (i < j)%nat /\ (j < length ps)%nat /\ line_hit N gbf dt ps a b c i j = true.
+Proof. exact @line_enumerates. Qed.
+Print Assumptions C13_line_enumerates.
+
+(* ---- merge + the removal the loop performs: sums of m, m v, m x over the WHOLE array are unchanged, N drops by one *)
+Theorem C13_merge_conserves_total : forall (flag : particle R -> particle R) t cb ps p1 p2 a b keep,
+  zth ps p1 = Some a -> zth ps p2 = Some b -> p1 <> p2 -> plc a <> t -> plc b <> t -> pm a + pm b <> 0 ->
+  exists ps' ps'',
+    fst (merge RNum t cb ps p1 p2) = ps' /\
+    remove_particle flag false keep ps' (gone_ix p1 p2) = (ps'', true) /\
+    S (length ps'') = length ps /\
+    Forall (fun f => tot f ps'' = tot f ps) conserved.
+Proof. exact merge_total. Qed.
+Print Assumptions C13_merge_conserves_total.
+
+(* ---- tree-walk pruning (TREE: D1 = D2 = 0; LINETREE: D1 = |dt||v1|, D2 = maxdrift): a pruned cell contains no
+   particle of radius <= max_radius1 that comes closer than p_r + r_q to p at any moment of the step — provided the
+   constant multiplying the cell width is at least sqrt(3)/2 *)
+Theorem C13_tree_prune_sound : forall kap gx gy gz cx cy cz w qx qy qz g'x g'y g'z q'x q'y q'z p_r mr1 rq D1 D2,
+  sqrt 3 / 2 <= kap -> 0 <= w ->
+  - (w / 2) <= qx - cx <= w / 2 -> - (w / 2) <= qy - cy <= w / 2 -> - (w / 2) <= qz - cz <= w / 2 ->
+  nrm (gx - g'x) (gy - g'y) (gz - g'z) <= D1 -> nrm (q'x - qx) (q'y - qy) (q'z - qz) <= D2 -> rq <= mr1 ->
+  p_r + D1 + mr1 + D2 + kap * w <= nrm (gx - cx) (gy - cy) (gz - cz) ->
+  p_r + rq <= nrm (g'x - q'x) (g'y - q'y) (g'z - q'z).
+Proof. exact prune_sound. Qed.
+Print Assumptions C13_tree_prune_sound.
+
+(* the literal 0.86602540378443 of collision.c is a truncation: it is SMALLER than sqrt(3)/2, so the full-strength
+   statement does not apply to the code as written ... *)
+Theorem C13_tree_prune_constant_refuted : kappa_code < sqrt 3 / 2 /\ sqrt 3 / 2 - kappa_code <= 1 / 100000000000000.
+Proof. exact kappa_code_short. Qed.
+(* ... what holds for the code's constant: sound up to an overlap depth of 1e-14 w *)
+Theorem C13_tree_prune_sound_partial : forall gx gy gz cx cy cz w qx qy qz g'x g'y g'z q'x q'y q'z p_r mr1 rq D1 D2,
+  0 <= w ->
+  - (w / 2) <= qx - cx <= w / 2 -> - (w / 2) <= qy - cy <= w / 2 -> - (w / 2) <= qz - cz <= w / 2 ->
+  nrm (gx - g'x) (gy - g'y) (gz - g'z) <= D1 -> nrm (q'x - qx) (q'y - qy) (q'z - qz) <= D2 -> rq <= mr1 ->
+  p_r + D1 + mr1 + D2 + kappa_code * w <= nrm (gx - cx) (gy - cy) (gz - cz) ->
+  p_r + rq - w / 100000000000000 <= nrm (g'x - q'x) (g'y - q'y) (g'z - q'z).
+Proof. exact prune_sound_code. Qed.
+Print Assumptions C13_tree_prune_sound_partial.
+
+(* the code's comparison: a cell is pruned iff not (r2 < rp*rp); then (rp >= 0) the centre is at least rp away *)
+Theorem C13_pruned_distance : forall ux uy uz rp, 0 <= rp -> ~ (ux * ux + uy * uy + uz * uz < rp * rp) -> rp <= nrm ux uy uz.
+Proof. exact pruned_distance. Qed.
+
+(* ---- max_radius0/1 (written only by reb_simulation_add): stays a valid bound under any add / remove history ... *)
+Theorem C13_max_radius_upper_bound :
+  radii_ok (0, 0) [] /\
+  (forall st l r, radii_ok st l -> radii_ok (add_radius st r) (r :: l)) /\
+  (forall st l x l', radii_ok st l -> Permutation l (x :: l') -> radii_ok st l') /\
+  (forall st l x y l', radii_ok st l -> Permutation l (x :: y :: l') -> x <= snd st \/ y <= snd st).
+Proof. exact (conj radii_init (conj radii_add (conj radii_remove radii_pair))). Qed.
+Print Assumptions C13_max_radius_upper_bound.
+(* ... but NOT under merges: reb_collision_resolve_merge enlarges a radius without touching max_radius0/1 *)
+Theorem C13_max_radius_merge_refuted : exists st l, radii_ok st l /\ forall c, c * c * c = 2 -> ~ radii_ok st [c; c].
+Proof. exact radii_merge_breaks. Qed.
